@@ -30,6 +30,7 @@ import Verif.Lemmas.LevelStore
 import Verif.Lemmas.MptRound
 import Verif.Lemmas.MergeRound
 import Verif.Lemmas.TrieRun
+import Verif.Lemmas.NotStuck
 import Verif.Lemmas.Interp
 import Verif.Lemmas.OrderChanges
 namespace Verif.Props.C03
@@ -192,7 +193,7 @@ theorem merge_resolves_partial (H : Bytes → Bytes) (below : Bytes → Option B
 /-- **Merge publishes into the parent's store — one merged transaction** (closed form of `MergeResolves` for a parent
     that executed own operations `esP` and accepts a child that executed own operations `esC` on the parent's tree):
     the parent's new root resolves in the parent's layered store.  Proved discipline for own operations and for the
-    replay; assumed: canonical resolvable start tree, key injectivity, `orderChanges` not stuck (`orderStuck = false`). -/
+    replay, and that `orderChanges` is never stuck; assumed: canonical resolvable start tree, key injectivity. -/
 theorem merge_resolves_one_child (H : Bytes → Bytes) (below : Bytes → Option Bytes) (t0 t1 t2 : Node) (p0 c0 : Trie)
     (v : Nat) (esP esC : List Event)
     (hfresh : p0.cc.changes = [] ∧ p0.cc.deletes = []) (hcur : p0.db.current = [])
@@ -202,10 +203,21 @@ theorem merge_resolves_one_child (H : Bytes → Bytes) (below : Bytes → Option
     (hctree : (c0.applyEvents H esC).tree = t2)
     (hup : (p0.applyEvents H esP).root = (c0.applyEvents H esC).cc.startRoot)
     (hne : (p0.applyEvents H esP).root ≠ (c0.applyEvents H esC).root)
-    (hstuck : orderStuck H (c0.applyEvents H esC).cc.getChanges = false)
     (hU : KeyInjOn H (fun r => r ∈ refs t0 [] ∨ r ∈ eventRefs esP ∨ r ∈ eventRefs esC)) :
     ∃ p', mergeMPTChanges H (p0.applyEvents H esP) (c0.applyEvents H esC) = .ok p' ∧
       Resolves H (levelGet p' below) p'.tree [] := by
+  obtain ⟨_, hcrP0, hw10⟩ := round_ok hP hw (fun r => r ∈ refs t0 []) (fun _ h => h)
+  have hstuck : orderStuck H (c0.applyEvents H esC).cc.getChanges = false := by
+    have hrunC : TrieRun H (fun r => r ∈ refs t0 [] ∨ r ∈ eventRefs esP ∨ r ∈ eventRefs esC) (fun _ => True) t1 (esC ++ []) t2 :=
+      TrieRun.own v t1 t2 t2 esC [] trivial hC (fun r hr => Or.inr (Or.inr hr)) (TrieRun.nil _)
+    have hUt1 : ∀ r ∈ refs t1 [], r ∈ refs t0 [] ∨ r ∈ eventRefs esP ∨ r ∈ eventRefs esC := by
+      intro r hr
+      rcases liveRunR_sub esP _ r (hcrP0 r hr) with h | h
+      · exact Or.inl h
+      · exact Or.inr (Or.inl h)
+    have := trieRun_not_stuck H _ hU hrunC hw10 hUt1 c0 hfreshC (c0.applyEvents H esC).cc.getChanges
+      (by simp)
+    exact this
   have hgood := orderChanges_good H _ hstuck
   obtain ⟨hd, hc, hsubE⟩ := one_merge_discipline H hP hC hw c0 hfreshC _ (orderChanges_perm H _) hgood hU
   obtain ⟨_, hcrP, hw1⟩ := round_ok hP hw (fun r => r ∈ refs t0 []) (fun _ h => h)
@@ -302,10 +314,22 @@ example : ∃ p', mergeMPTChanges id ((Trie.open [] .empty 1).applyEvents id [])
   · simp [Trie.applyEvents, insertE, Trie.applyEvent, Trie.insertNode]
   · simp [Trie.applyEvents, insertE, Trie.applyEvent, Trie.insertNode, Trie.open, Collector.addChange]
   · simp [Trie.applyEvents, insertE, Trie.applyEvent, Trie.insertNode, Trie.open, root, key]
-  · decide
   · intro a b ha hb _
     simp [refs, insertE, eventRefs] at ha hb
     rw [ha, hb]
+
+/-- **The ordering of `mergeChanges` is never stuck**: on any permutation of the pending changes of a trie that ran a
+    `TrieRun` (own rounds and merges of children, nested) from a canonical tree with a fresh collector, the Kahn passes
+    of `orderChanges` always make progress — a pending change that records a predecessor is never blocked, because
+    replacements happen in place, recorded predecessors are nodes of the start tree (pairwise different positions) and a
+    predecessor never has the key of its own entry.  Hence `orderChanges` yields a `GoodOrder` (`orderChanges_good`). -/
+theorem order_never_stuck (H : Bytes → Bytes) (U : Ref → Prop) (hU : KeyInjOn H U) (Vok : Nat → Prop) (t t' : Node)
+    (es : List Event) (hrun : TrieRun H U Vok t es t') (hw : WF t) (hUt : ∀ r ∈ refs t [], U r)
+    (c0 : Trie) (hfresh : c0.cc.changes = [] ∧ c0.cc.deletes = []) (cs : List (Change Ref))
+    (hperm : cs.Perm (c0.applyEvents H es).cc.getChanges) :
+    orderStuck H cs = false ∧ GoodOrder (Ref.key H) (orderChanges H cs) := by
+  have h := trieRun_not_stuck H U hU hrun hw hUt c0 hfresh cs hperm
+  exact ⟨h, orderChanges_good H cs h⟩
 
 /-- The full publication statement: after an accepted merge of a child whose own view resolved, the parent's new root
     resolves in the parent's layered store (`get` = read-through of the parent's level and everything below it).
